@@ -398,6 +398,8 @@ func (w *world) exec(s PStmt) (panicked any) {
 		var e error
 		if s.Ty == "top" {
 			e = newAtTop(w.defs[s.F], s.Msg) // call site on line 2 of a real file
+		} else if s.Ty == "bottom" {
+			e = newAtBottom(w.defs[s.F], s.Msg) // call site on the last line of a real file
 		} else {
 			e = w.defs[s.F].New(s.Msg)
 		}
@@ -701,7 +703,7 @@ func genProg(r *Rng, cfg p1Cfg) []PStmt {
 		case x == 6:
 			ty := ""
 			if cfg.Trace && r.Chance(1, 3) {
-				ty = "top"
+				ty = Pick(r, []string{"top", "bottom"})
 			}
 			p = append(p, PStmt{T: "new", F: r.Intn(ndefs), Msg: Pick(r, p1Msgs), Ty: ty})
 			nerrs++
